@@ -53,12 +53,6 @@ pub const RITZ_MIN_GAP: f64 = 0.2;
 /// A run of LOBPCG that is certifiably unconverged (but returns genuine Ritz pairs) is counted as not judged when it misses
 /// the optimality tolerances by at most this factor; beyond it the result is reported as a failure.
 pub const NOT_CONVERGED_SLACK: f64 = 10.0;
-/// LOBPCG path (5k <= min(n,p)) only: linfa stops the solver at an *absolute* residual 1e-10·max(|Xc|_F², 1) on the
-/// eigenvalues of Xc^T Xc, which for small-magnitude data is no tolerance at all (measured: at data scale 1e-5 about
-/// half, at 1e-6 all such fits are wrong; at 1e-2 and 1e-3 none of ~9 000). The solver-dependent obligations are
-/// therefore judged in that path only when (n−1)·λ₁ = λ₁(Xc^T Xc) >= LOBPCG_SCALE_MIN (tolerance <= 1e-4·λ₁).
-/// The full-space path (5k > min(n,p)) is exact at every magnitude and is judged without such a bound.
-pub const LOBPCG_SCALE_MIN: f64 = 1e-6;
 /// linfa clamps every singular value at 1e-8 from below ("cut singular values to avoid numerical problems", original
 /// code). The sigma-dependent obligations are judged only when the smallest requested reference singular value
 /// sqrt((n−1)·λ_k) is at least SIGMA_MIN, a factor 10 above the clamp.
@@ -377,11 +371,10 @@ pub fn check_pca(c: &Case, obs: &mut Obs) {
     // `spectral`: the solver-dependent obligations are evaluated
     let sigma_k_ref = (nm1 * lam[k - 1].max(0.0)).sqrt();
     let near_clamp = sigma_k_ref < SIGMA_MIN;
-    let lobpcg_tiny = !small_problem && nm1 * lam1 < LOBPCG_SCALE_MIN;
     obs.class_if(near_clamp, "sigma_k_below_1e-7(clamp_1e-8):not_judged_spectrally");
-    obs.class_if(lobpcg_tiny, "small_magnitude_lobpcg_path:not_judged_spectrally");
-    obs.class_if(c.global_exp < 0 && in_range && !near_clamp && !lobpcg_tiny, "small_magnitude_judged");
-    let mut spectral = in_range && !near_clamp && !lobpcg_tiny;
+    obs.class_if(c.global_exp < 0 && in_range && !near_clamp, "small_magnitude_judged");
+    obs.class_if(c.global_exp < 0 && in_range && !near_clamp && !small_problem, "small_magnitude_judged_lobpcg_path");
+    let mut spectral = in_range && !near_clamp;
     let describe = |what: &str| {
         format!(
             "n={n}, p={p}, embedding size {k}, whiten={}: {what}; sigma^2/(n-1) = {:?}, variances along the components = {:?}, \
@@ -404,7 +397,7 @@ pub fn check_pca(c: &Case, obs: &mut Obs) {
     //     equals the eigenvalue λ_j of its rank; every component carries its own variance except one pair (a, b) with
     //     λ_a + λ_b < λ₁ (necessary for the skipped rotation, see MISPAIR_SUM), which carry each other's (b may lie beyond k, truncated away: then only
     //     component a shows it, carrying λ_b). With that verified nothing else about the answer is left to be wrong.
-    let in_range = in_range && !near_clamp && !lobpcg_tiny;
+    let in_range = in_range && !near_clamp;
     let mut mispair: Option<(usize, usize)> = None;
     if in_range && small_problem && sorted && leading_ok && unit_rows && ritz_like && resid_own <= RESID_MAX && kk == k {
         let close = |a: f64, b: f64| (a - b).abs() <= RESID_MAX * b.abs();
@@ -513,9 +506,9 @@ pub fn check_pca(c: &Case, obs: &mut Obs) {
     }
 
     // ---- solver accuracy where the configured tolerance is reached with margin --------------------
-    // linfa-reduction passes precision = 1e-5·max(|Xc|_F, 1) to TruncatedSvd; linfa-linalg squares it and stops
-    // LOBPCG when every |A x_j − σ_j² x_j|₂ <= 1e-10·max(|Xc|_F², 1), A = Xc^T Xc. In covariance units:
-    //     |C v_j − (σ_j²/(n−1)) v_j| <= 1e-10 · max(trace C, 1/(n−1))   =: one "unit".
+    // linfa-reduction (since ac3c610) passes precision = 1e-5·|Xc|_F to TruncatedSvd; linfa-linalg squares it and
+    // stops LOBPCG when every |A x_j − σ_j² x_j|₂ <= 1e-10·|Xc|_F², A = Xc^T Xc, |Xc|_F² = (n−1)·trace C. In
+    // covariance units:   |C v_j − (σ_j²/(n−1)) v_j| <= 1e-10 · trace C   =: one "unit" (relative at every magnitude).
     // It is asserted with a slack factor RITZ_SLACK where LOBPCG is inside its own domain and is not cut short by
     // its iteration limit: 5k <= p, 2n >= 10p (limit min(10·dim, 2n) = 10p) and a relative gap at k of at least
     // RITZ_MIN_GAP. Measured on the unchanged tree over 12 quick seeds (about 240 000 such fits): all <= 1 unit.
@@ -524,7 +517,7 @@ pub fn check_pca(c: &Case, obs: &mut Obs) {
         if relgap >= RITZ_MIN_GAP {
             obs.class("ritz_residual_asserted");
             let trace: f64 = (0..p).map(|i| cov[i][i]).sum();
-            let unit = 1e-10 * trace.max(1.0 / nm1);
+            let unit = 1e-10 * trace;
             for j in 0..kk {
                 let r2: f64 = cus[j].iter().zip(&dirs[j]).map(|(a, b)| (a - l[j] * b).powi(2)).sum();
                 let r = r2.sqrt() / unit;
@@ -947,10 +940,10 @@ pub fn property() -> Property {
             "explained-variance ratios only have to be finite, >= 0, not all zero and proportional to sigma_j^2 (any positive common factor)".into(),
             "inverse_transform(transform(X)) is required to be the orthogonal projection about the mean for whitened models too (the statement quantifies over whitening on/off; DESIGN restricted it to un-whitened models)".into(),
             format!("design domain singular ratio <= 1e3: when lambda_k < {RANGE_MIN:e}*lambda_1 (sampling fluctuation, n close to p) only the solver-independent obligations are judged (class beyond_singular_ratio_1e3)"),
-            format!("small-magnitude data (global scale 10^-2, 10^-3, 10^-5, 10^-6, offsets shrunk with the data) is judged with the same lambda_1-relative tolerances in the full-space path 5k > min(n,p) (measured exact at every magnitude); in the LOBPCG path (5k <= p) the solver-dependent obligations are judged only when (n-1)*lambda_1 >= {LOBPCG_SCALE_MIN:e}, because linfa's stopping tolerance is absolute (1e-10*max(|Xc|_F^2, 1)) and the unchanged tree is wrong below that (class small_magnitude_lobpcg_path:not_judged_spectrally; reported as a candidate finding, not asserted); sigma-dependent obligations need the reference sigma_k = sqrt((n-1)*lambda_k) >= {SIGMA_MIN:e}, ten times linfa's absolute clamp sigma >= 1e-8"),
+            format!("small-magnitude data (global scale 10^-2, 10^-3, 10^-5, 10^-6, offsets shrunk with the data) is judged with the same lambda_1-relative tolerances in both solver paths (measured on the tree with ac3c610: no failure in 12 quick seeds); the only magnitude-dependent bound left is linfa's absolute clamp sigma >= 1e-8 (original code, 'cut singular values to avoid numerical problems'): sigma-dependent obligations need the reference sigma_k = sqrt((n-1)*lambda_k) >= {SIGMA_MIN:e}, ten times the clamp"),
             format!("PCA exposes no convergence flag; every obligation is evaluated on whatever fit returns, with one exception: outside 5k > p, a result that the independent residual shows unconverged on a component's own scale, that is a genuine set of Ritz pairs and misses the lambda_1-scaled optimality tolerances by at most a factor {NOT_CONVERGED_SLACK} is counted as not judged (LOBPCG stopped at its iteration limit 2n)"),
             format!("known findings are recognised only under the exact precondition of the external defect: pca:solver-breakdown:eigenpairs-misassigned = full-space path (5k > min(n,p)) and the answer is the exact decomposition up to ONE transposition: all components eigenvectors with unit-scaled mutually (C-)orthogonal rows, all sigma_j^2/(n-1) sorted and equal to the eigenvalue of their rank, every component carrying its own variance except one pair (a,b) with lambda_a + lambda_b < {MISPAIR_SUM}*lambda_1 (necessary condition of the skipped 2x2 rotation in linfa-linalg symmetric_eig) carrying each other's (b may be truncated away); pca:solver-breakdown:inconsistent-components = full-space path, lambda_k < {GARBAGE_TAIL:e}*lambda_1, a component that is no eigenvector within {RESID_MAX:e} of its own variance and no member of a set of Ritz pairs; pca:solver-breakdown:eigenvector-pair-rotated = full-space path, exact answer except two components a<b that span the eigen-plane span{{e_a,e_b}} but are rotated in it by at most {ROT_MAX} rad, with sigma_a^2/(n-1), sigma_b^2/(n-1) equal to the Rayleigh quotients of the rotated vectors and cov(z_a,z_b) = sin*cos*(lambda_a-lambda_b) (the form the defect takes after linfa's sigma_j = |Xc v_j| post-processing); pca:solver-breakdown:lobpcg-missed-eigenpair = LOBPCG path (5k <= p), an optimality obligation fails while every returned pair is an exact eigenpair, the first k-1 are the leading ones and the last one equals a later eigenvalue lambda_m, m >= k; every other deviation fails under the ordinary signatures (pca:singular-value, pca:subspace, pca:retained-variance, pca:whitened-covariance, ...)"),
-            format!("pca:ritz-residual: |C v_j - (sigma_j^2/(n-1)) v_j| <= {RITZ_SLACK} * 1e-10 * max(trace C, 1/(n-1)) (the stopping tolerance linfa configures: precision 1e-5*|Xc|_F, squared by linfa-linalg, on the eigenproblem of Xc^T Xc) is asserted where LOBPCG runs inside its domain and is not cut short by its iteration limit: 5k <= p, 2n >= 10p, relative gap at k >= {RITZ_MIN_GAP}; measured on the unchanged tree (12 quick seeds, about 240 000 such fits): all within 1 x the tolerance. Outside that regime the unchanged tree itself leaves residuals up to ~3e3 x the tolerance (clustered trailing eigenvalues, iteration limit 2n), so nothing tighter than the lambda_1-scaled TAU obligations can be asserted there"),
+            format!("pca:ritz-residual: |C v_j - (sigma_j^2/(n-1)) v_j| <= {RITZ_SLACK} * 1e-10 * trace C (the stopping tolerance linfa configures since ac3c610: precision 1e-5*|Xc|_F, squared by linfa-linalg, on the eigenproblem of Xc^T Xc) is asserted where LOBPCG runs inside its domain and is not cut short by its iteration limit: 5k <= p, 2n >= 10p, relative gap at k >= {RITZ_MIN_GAP}; measured on the unchanged tree (12 quick seeds, about 240 000 such fits): all within 1 x the tolerance. Outside that regime the unchanged tree itself leaves residuals up to ~3e3 x the tolerance (clustered trailing eigenvalues, iteration limit 2n), so nothing tighter than the lambda_1-scaled TAU obligations can be asserted there"),
             "a panic of fit whose payload is linfa-linalg's `NaN values in array` AND whose recorded site is linfa-linalg .../eigh.rs is signature pca:solver-breakdown:nan-panic; any other panic (other payload or other site) is panic:fit".into(),
             "exactly k components are expected inside the design domain (the solver's rank cut-off pinned by test_explained_variance_cutoff is far below it)".into(),
             "layouts: the fitted model is judged by the same obligations whatever the layout; predict / transform of the same records in each of the other five layouts must equal the main scores within the formula tolerance (signature pca:predict-layout)".into(),
